@@ -350,9 +350,13 @@ class Check:
         if cur is None or v > cur:
             self.cov["maxima"][name] = v
 
-    def control(self, name, fired, detail=""):
-        self.cov["negative_controls"].append({"control": name, "fired": bool(fired), "detail": detail})
-        if not fired:
+    def control(self, name, fired, detail="", impl_dependent=False):
+        """Negative control.  A control that presupposes a correct implementation (impl_dependent) is
+        recorded but not enforced once this run has already found violations: a broken tree must be
+        reported as exit 1, never as a machinery failure."""
+        enforced = not (impl_dependent and self.violations)
+        self.cov["negative_controls"].append({"control": name, "fired": bool(fired), "detail": detail, "enforced": enforced})
+        if not fired and enforced:
             raise MachineryError(f"negative control '{name}' did not fire: {detail}")
 
     # --- verdicts
